@@ -136,9 +136,13 @@ def _parser():
 def _count_nodes(struct):
     from django_components.util.tag_parser import TagValueStruct
 
-    n = 1
-    for entry in struct.entries:
-        n += _count_nodes(entry) if isinstance(entry, TagValueStruct) else 1
+    # iterative: the harness must not hit Python's recursion limit before the implementation does
+    n, todo = 0, [struct]
+    while todo:
+        node = todo.pop()
+        n += 1
+        if isinstance(node, TagValueStruct):
+            todo.extend(node.entries)
     return n
 
 
@@ -355,7 +359,27 @@ def valid_tags(thorough: bool):
     ]
     if thorough:
         leaves += [["a", "|", "default", ":", "b", "|", "upper"], ["_(", "'", "t", "'", ")"], ["a", " ", "|", " ", "default", " ", ":", " ", '"', "x", '"']]
-    keys = [q("k"), ["a"]]
+    # translation strings in every part position of a filter chain head[|f[:arg][|f]]: as head, as filter
+    # argument, with a further filter behind it (`u` is undefined in _RT_CONTEXT, so `default:` shows its argument)
+    tr = lambda s, qu='"': ["_(", qu, s, qu, ")"]  # noqa: E731
+    leaves += [
+        ["u", "|", "default", ":"] + tr("x"),
+        tr("t") + ["|", "upper"],
+        tr("t") + ["|", "default", ":"] + tr("x") + ["|", "upper"],
+    ]
+    if thorough:
+        heads = [["a"], ["u"], ["1"], q("s"), tr("t"), tr("t", "'")]
+        args = [["b"], q("x"), tr("x"), tr("x", "'"), tr("x y")]
+        have = {"".join(x) for x in leaves}
+        for h in heads:
+            for a in args:
+                for tail in ([], ["|", "upper"]):
+                    leaf = h + ["|", "default", ":"] + a + tail
+                    if "".join(leaf) not in have:
+                        have.add("".join(leaf))
+                        leaves.append(leaf)
+        leaves += [["u", " ", "|", " ", "default", " ", ":", " "] + tr("x"), tr("t") + ["|", "add", ":"] + tr("x") + ["|", "add", ":"] + tr("y")]
+    keys = [q("k"), ["a"], tr("k")]
     cs = [",", " "]
 
     def lists(vs):
@@ -420,12 +444,23 @@ def mutants(tokens):
 def ast_dump(attrs):
     from django_components.util.tag_parser import TagValueStruct
 
-    def dv(v):
-        if isinstance(v, TagValueStruct):
-            return ("S", v.type, v.spread, tuple(dv(e) for e in v.entries))
-        return ("V", tuple((p.value, p.quoted, p.spread, p.translation, p.filter) for p in v.parts))
-
-    return tuple((a.key, dv(a.value)) for a in attrs)
+    # flat pre-order dump with explicit open / close markers (equal dumps <=> equal trees); iterative so that
+    # the harness never hits Python's recursion limit before the implementation does
+    out = []
+    for a in attrs:
+        out.append(("A", a.key))
+        todo = [a.value]
+        while todo:
+            v = todo.pop()
+            if v is None:
+                out.append(("E",))
+            elif isinstance(v, TagValueStruct):
+                out.append(("S", v.type, v.spread, len(v.entries)))
+                todo.append(None)
+                todo.extend(reversed(v.entries))
+            else:
+                out.append(("V", tuple((p.value, p.quoted, p.spread, p.translation, p.filter) for p in v.parts)))
+    return tuple(out)
 
 
 _RT_CONTEXT = {"a": {"k": "A"}, "b": "B", "l": [1, 2], "d": {"x": 1, "y": 2}}
@@ -453,7 +488,9 @@ def roundtrip_problem(text: str):
         return "ok", ("reparse-rejected", f"serialisation {ser!r} is rejected on re-parse: {e}")
     d2 = ast_dump(attrs2)
     if d1 != d2:
-        return "ok", ("ast-differs", f"re-parsing the serialisation {ser!r} yields different arguments: {d2} != {d1}")
+        i = next((i for i, (x, y) in enumerate(zip(d1, d2)) if x != y), min(len(d1), len(d2)))
+        return "ok", ("ast-differs", f"re-parsing the serialisation {ser[:300]!r} yields different arguments (pre-order dump, first difference "
+                                     f"at node {i}): {d2[i:i + 3]} != {d1[i:i + 3]}")
     ser2 = " ".join(a.serialize() for a in attrs2)
     if ser2 != ser:
         return "ok", ("not-fixpoint", f"serialisation is not a fixpoint: {ser!r} -> {ser2!r}")
